@@ -33,6 +33,8 @@ def check(case, ctx):
         return
     g = B.g
     tag = "Sg%d/%s" % (g.no, g.choice)
+    if GR.touch_sibling(g.no, g.choice):
+        ctx.event("sibling-setting-used-first")
     nt = bool(B.ext.any()) or B.oblique or B.smin > 0
     ctx.nontrivial(nt)
     if B.ext.any():
